@@ -75,7 +75,7 @@ var clauseWords = map[string]bool{
 	"requires": true, "ensures": true, "panics": true, "may_panic": true, "modifies": true, "assigns": true,
 	"loop": true, "ghost": true, "at": true, "trusted": true, "inline": true, "pure": true, "props": true,
 	"spec": true, "axiom": true, "event": true, "env": true, "assume": true, "decreases": true, "global": true,
-	"havoc": true, "nopanic": true, "fresh": true, "captures": true, "var": true, "import": true, "let": true,
+	"havoc": true, "nopanic": true, "fresh": true, "nilsafe": true, "captures": true, "var": true, "import": true, "let": true,
 }
 
 var labelRe = regexp.MustCompile(`^\[([A-Za-z0-9_.<>=+\-/ ]+)\]\s*`)
@@ -206,7 +206,7 @@ func ParseContractText(path, pkgPath, src string) (*ContractFile, error) {
 		case "props":
 			cur.Props = append(cur.Props, strings.Fields(rest)...)
 			continue
-		case "trusted", "inline", "pure", "nopanic", "fresh":
+		case "trusted", "inline", "pure", "nopanic", "fresh", "nilsafe":
 			cur.Flags[word] = true
 			continue
 		case "var":
